@@ -84,3 +84,86 @@ pub fn mask_addresses(line: &str) -> String {
     }
     out
 }
+
+// ------------------------------------------------------------------------------------------------
+// phases that have to run in another build flavour (e.g. with the production buffer limit) run in a
+// child process of that flavour's binary, which prints one JSON line
+
+/// Child side: print the statistics of one sweep as the JSON line the parent expects.
+pub fn print_child_stats(st: &xplore::Stats) {
+    let viol: Vec<Value> = st.violations.iter().map(|(c, r)| serde_json::json!({"class": c, "detail": r.detail, "case": r.replay["case"], "index": r.replay["index"], "count": r.count})).collect();
+    let goals: serde_json::Map<String, Value> = st.goals.iter().map(|(k, v)| (k.clone(), serde_json::json!(v))).collect();
+    println!("{}", serde_json::json!({"evals": st.evals, "transitions": st.transitions, "states": st.states.len(), "outcomes": st.outcomes.len(), "violations": viol, "goals": goals, "errors": st.machinery_errors}));
+}
+
+fn run_child(flavor: &str, args: &[String]) -> Result<Value, String> {
+    let child = xplore::report::build_dir(flavor).join("release/zcheck");
+    let out = std::process::Command::new(&child).args(args).output().map_err(|e| format!("cannot run {}: {e}", child.display()))?;
+    if !out.status.success() {
+        return Err(format!("{} {args:?} ended with {:?}: {}", child.display(), out.status, String::from_utf8_lossy(&out.stderr).lines().last().unwrap_or("")));
+    }
+    let txt = String::from_utf8_lossy(&out.stdout).to_string();
+    let v: Value = txt.lines().last().and_then(|l| serde_json::from_str(l).ok()).ok_or_else(|| format!("{} {args:?} printed no JSON line", child.display()))?;
+    if v["errors"].as_array().map_or(true, |a| !a.is_empty()) {
+        return Err(format!("child {args:?}: {}", v["errors"]));
+    }
+    Ok(v)
+}
+
+/// Parent side: run `zcheck <sub>` of build flavour `flavor`, and add what it reports as phase
+/// `phase` (its violations become violations of this run, tagged so that a replay goes back to the
+/// child).  `Err(2)` on a machinery problem.
+pub fn child_phase(rep: &mut xplore::report::Report, flavor: &str, sub: &str, tier: Tier, phase: &str) -> Result<(), i32> {
+    let v = run_child(flavor, &[sub.to_string(), "--tier".into(), tier.name().into()]).map_err(|e| {
+        eprintln!("MACHINERY: {e}");
+        2
+    })?;
+    let viol: Vec<Value> = v["violations"].as_array().cloned().unwrap_or_default();
+    let evals = v["evals"].as_u64().unwrap_or(0);
+    let nstates = v["states"].as_u64().unwrap_or(0);
+    let nout = v["outcomes"].as_u64().unwrap_or(0);
+    let trans = v["transitions"].as_u64().unwrap_or(0);
+    let goals: Vec<(&'static str, u64)> = v["goals"].as_object().map(|m| m.iter().map(|(k, c)| (&*Box::leak(k.clone().into_boxed_str()), c.as_u64().unwrap_or(0))).collect()).unwrap_or_default();
+    let n = evals.max(viol.len() as u64).max(1);
+    let sub = sub.to_string();
+    let flavor = flavor.to_string();
+    rep.add(xplore::sweep(phase, n, &xplore::Config { threads: 1, ..Default::default() }, |i, s| {
+        if i == 0 {
+            for (g, c) in &goals {
+                for _ in 0..(*c).min(3) {
+                    s.goal(g);
+                }
+            }
+            s.steps(trans);
+        }
+        match viol.get(i as usize) {
+            Some(x) => s.fail(x["class"].as_str().unwrap_or("child:violation"), x["detail"].as_str().unwrap_or(""), serde_json::json!({"child": sub, "flavor": flavor, "index": x["index"], "case": x["case"]})),
+            None => {
+                // the child's distinct states / outcomes are carried over by count
+                if i < nstates {
+                    s.state(i);
+                }
+                if i < 4 {
+                    s.sample(|| serde_json::json!({"phase_run_in_child_process": sub, "build": flavor, "case_number": i, "result": "as required"}));
+                }
+                s.pass(if i < nout { i } else { 0 })
+            }
+        }
+    }));
+    Ok(())
+}
+
+/// Replay of a violation that a child phase reported: the child re-runs exactly that case.
+pub fn replay_child(v: &Value) -> Option<Replayed> {
+    let c = &v["case"];
+    let sub = c["child"].as_str()?;
+    let flavor = c["flavor"].as_str()?;
+    let idx = c["index"].as_u64()?;
+    Some(match run_child(flavor, &[sub.to_string(), "--case".into(), idx.to_string()]) {
+        Err(e) => Replayed::Error(e),
+        Ok(r) => match r["violations"].as_array().and_then(|a| a.first()) {
+            Some(x) => Replayed::Fail { trace: vec![format!("case {} (run by `zcheck {sub}` of the {flavor} build)", x["case"])], class: x["class"].as_str().unwrap_or("").to_string(), detail: x["detail"].as_str().unwrap_or("").to_string() },
+            None => Replayed::Pass(vec![format!("case {} (run by `zcheck {sub}` of the {flavor} build)", c["case"])]),
+        },
+    })
+}
